@@ -136,14 +136,14 @@ UnionDecisionStep ==
     /\ UNCHANGED <<tl, tr, ql, qr, cl, cr, nid, steps, trace, t12, q12, c12, how1>>
 
 JoinStep ==
-    /\ phase = "pre" /\ ~EmitAll
+    /\ phase = "pre"
     /\ \E how \in {"inner", "left", "full"} :
          LET needL == RqJoin(cl, tl, ql, how, FALSE)
              needR == RqJoin(cr, tr, qr, how, TRUE)
              S == JoinSeq(how)
              F == JoinFlat(how)
-         IN /\ S.ok /\ needL = "" /\ needR = ""
-            /\ (IF SameVisible(F, S.t) THEN TRUE
+         IN /\ S.ok /\ needL = "" /\ needR = "" /\ JoinBase(how).ok
+            /\ (IF SameVisible(F, S.t) \/ EmitAll THEN TRUE
                 ELSE PrintT(ToJson([left |-> SrcTables[LeftSrc].name, right |-> SrcTables[RightSrc].name, pre |-> trace, how |-> how])))
             /\ phase' = IF SameVisible(F, S.t) THEN "j1" ELSE "bad"
             /\ how1' = how /\ t12' = S.t
@@ -160,8 +160,19 @@ Join2Flat(how2) ==
     IN FilAll(D, q12.where, 1)
 Join2Seq(how2) == Join(t12, Third, JoinOn2, how2, "_s")
 
+(* conformance mode, second stage: the decision for the join of an (accepted, inlined) join result with a third table - the   *)
+(* state the first join leaves behind (JoinCs: limit / grouping reset, is_filtered by JoinFilt) decides                          *)
+Decision2Step ==
+    /\ phase = "j1" /\ EmitAll /\ ThirdSrc # 0 /\ ByName(SrcTables[LeftSrc])["a"] \in VisSet(t12)
+    /\ \E how2 \in {"inner", "left", "full"} :
+         /\ Join2Seq(how2).ok
+         /\ PrintT(ToJson([left |-> SrcTables[LeftSrc].name, right |-> SrcTables[RightSrc].name, third |-> Third.name, pre |-> trace,
+                            how |-> how1, how2 |-> how2, needL |-> RqJoin(c12, t12, q12, how2, FALSE), needR |-> ""]))
+         /\ phase' = "decided2"
+    /\ UNCHANGED <<tl, tr, ql, qr, cl, cr, nid, steps, trace, t12, q12, c12, how1>>
+
 Join2Step ==
-    /\ phase = "j1" /\ ThirdSrc # 0 /\ ByName(SrcTables[LeftSrc])["a"] \in VisSet(t12)
+    /\ phase = "j1" /\ ~EmitAll /\ ThirdSrc # 0 /\ ByName(SrcTables[LeftSrc])["a"] \in VisSet(t12)
     /\ \E how2 \in {"inner", "left", "full"} :
          LET need == RqJoin(c12, t12, q12, how2, FALSE)
              S == Join2Seq(how2)
@@ -173,7 +184,7 @@ Join2Step ==
             /\ phase' = IF SameVisible(F, S.t) THEN "ok2" ELSE "bad2"
     /\ UNCHANGED <<tl, tr, ql, qr, cl, cr, nid, steps, trace, t12, q12, c12, how1>>
 
-Next == PreStep \/ JoinStep \/ Join2Step \/ DecisionStep \/ UnionDecisionStep
+Next == PreStep \/ JoinStep \/ Join2Step \/ DecisionStep \/ UnionDecisionStep \/ Decision2Step
 
 View == <<tl, tr, ql, qr, cl, cr, nid, steps, phase, how1>>
 
